@@ -39,6 +39,15 @@ class Dump:
         self.keys = {}           # canonical data path -> key id
         self.post = []           # (ctx key path, input key path, kind) conversions done by terminate()
         self.floats = {}         # dst key -> struct format for float decodes
+        self.objs = []           # the live state objects, for reset()
+
+    def reset(self):
+        """put every dfa of the machine back into its freshly constructed condition (cycle/final/current persist
+        between runs of a cpppo machine and leak into .terminal when a later run performs no cycle)"""
+        from cpppo import automata as A
+        for st in self.objs:
+            if isinstance(st, A.dfa_base):
+                st.cycle, st.final, st.current = 0, 1, st.initial
 
     def key(self, path):
         p = canonical(path)
@@ -64,6 +73,7 @@ class Dump:
         self.ids[k] = nid
         nd = dict(proc=0, store=None, term=bool(st._terminal), greedy=bool(st.greedy), limit=(0, 0), trans=[], sub=None, struct=None)
         self.nodes.append(nd)
+        self.objs.append(st)
         if st.recognizers:
             raise Unsupported('recognizers')
         pf = type(st).process
@@ -251,5 +261,6 @@ def run_both(machines_inputs):
     outs = core.run_model('engine', cases)
     res = []
     for (mach, d, inp), o in zip(machines_inputs, outs):
+        d.reset()
         res.append((impl_run(mach, inp), decode_model(d, o)))
     return res
